@@ -46,6 +46,9 @@ fn order_programs() -> Vec<Prog> {
         mk("error-uncaught", "const r = await order({err: 'fatal'});\nr", None),
         mk("no-await", "const p = order({k: 5});\n'p:' + p", None),
         mk("module-with-orders", "export const first = await order({k: 10});\nexport let second = 0;\nsecond = await order({k: first});\nfirst + second", Some("/app/orders.ts")),
+        mk("reexport-import", "export { order };\nexport const kind = typeof order;\nkind", Some("/app/re.ts")),
+        mk("reexport-import-renamed", "export { order as place };\nconst r = await order({k: 4});\nexport const got = r;\nr", Some("/app/re2.ts")),
+        mk("module-no-await", "export function go() { return typeof order; }\ngo()", Some("/app/na.ts")),
         mk("method", "class Svc { constructor(){ this.base = 100; } async get(k) { const v = await order({k: k}); return this.base + v; } }\nconst s = new Svc();\nString(await s.get(1))", None),
     ]
 }
@@ -83,6 +86,52 @@ fn programs(ctx: &Ctx) -> Vec<Prog> {
         v.push(Prog { id: format!("{}@module", p.id), src: format!("export const marker = 1;\n{}", p.src), path: Some("/app/b.ts".into()), modules: BTreeMap::new(), calls: vec![] });
     }
     v
+}
+
+// ───────────────────────────── what a run leaves behind ─────────────────────────────
+
+/// local names bound by the import declarations of `src` (`import d, { a, b as c } from`,
+/// `import * as ns from`)
+fn import_locals(src: &str) -> Vec<String> {
+    let mut out: Vec<String> = Vec::new();
+    let mut rest = src;
+    while let Some(at) = rest.find("import ") {
+        let before_ok = at == 0 || matches!(rest.as_bytes()[at - 1], b'\n' | b';' | b' ' | b'}');
+        let tail = &rest[at + 7..];
+        rest = tail;
+        if !before_ok {
+            continue;
+        }
+        let Some(end) = tail.find(" from") else { continue };
+        let clause = &tail[..end];
+        if clause.contains('\n') && !clause.contains('{') {
+            continue;
+        }
+        for part in clause.replace(['{', '}'], ",").split(',') {
+            let part = part.trim();
+            if part.is_empty() || part == "type" {
+                continue;
+            }
+            let name = part.rsplit(" as ").next().unwrap_or(part).trim();
+            if !name.is_empty() && name.chars().all(|c| c.is_alphanumeric() || c == '_' || c == '$') && !out.iter().any(|n| n == name) {
+                out.push(name.to_string());
+            }
+        }
+    }
+    out
+}
+
+/// A second program for the same interpreter: what is visible of the first program's import
+/// bindings and top-level declarations from a later, unrelated script.
+fn observer_script(p: &Prog) -> String {
+    let mut names = import_locals(&p.src);
+    for n in ["marker", "value", "counter", "order"] {
+        if !names.iter().any(|x| x == n) {
+            names.push(n.to_string());
+        }
+    }
+    let parts: Vec<String> = names.iter().map(|n| format!("'{}:' + typeof {}", n, n)).collect();
+    format!("[{}].join(',')", parts.join(", "))
 }
 
 // ───────────────────────────── module roles ─────────────────────────────
@@ -127,7 +176,16 @@ fn judge(r: &mut UnitResult, progs: &[Prog]) {
             let mut traces = Vec::new();
             for m in MODES {
                 let mut e = engine::make(m, &[]);
-                traces.push(engine::drive(e.as_mut(), &p.src, p.path.as_deref(), &p.modules, &calls));
+                let mut t = engine::drive(e.as_mut(), &p.src, p.path.as_deref(), &p.modules, &calls);
+                // the same interpreter goes on: a later script observes what the run left
+                // behind, then the program itself runs a second time
+                if !t.contains("error step-budget") {
+                    t.push_str("\n-- later script on the same interpreter --\n");
+                    t.push_str(&engine::drive(e.as_mut(), &observer_script(p), None, &BTreeMap::new(), &[]));
+                    t.push_str("\n-- the program again on the same interpreter --\n");
+                    t.push_str(&engine::drive(e.as_mut(), &p.src, p.path.as_deref(), &p.modules, &calls));
+                }
+                traces.push(t);
                 // a program that does not terminate within the step budget cannot be handed to
                 // tsrun_run (which has no budget): skip the remaining entry points
                 if traces[0].contains("error step-budget") {
